@@ -360,6 +360,27 @@ func (vc *VC) newAlloc(st *State, t types.Type, escaped bool) *allocInfo {
 	return a
 }
 
+// refCompatible: can a reference-like value of static type vt designate an object allocated with type at?
+func refCompatible(vt, at types.Type) bool {
+	switch u := vt.Underlying().(type) {
+	case *types.Chan:
+		a, ok := at.Underlying().(*types.Chan)
+		return ok && types.Identical(a.Elem(), u.Elem())
+	case *types.Map:
+		_, ok := at.Underlying().(*types.Map)
+		return ok
+	case *types.Slice:
+		a, ok := at.Underlying().(*types.Array)
+		return ok && types.Identical(a.Elem(), u.Elem())
+	case *types.Pointer:
+		if b, ok := u.Elem().Underlying().(*types.Basic); ok && b.Kind() == types.UnsafePointer {
+			return true
+		}
+		return types.Identical(u.Elem(), at) || types.Identical(u.Elem().Underlying(), at.Underlying())
+	}
+	return true
+}
+
 // allocFacts: references held in a value of type t are nil or allocated in st
 func (vc *VC) allocFacts(st *State, v Value, t types.Type) Term {
 	if st == nil {
@@ -369,13 +390,24 @@ func (vc *VC) allocFacts(st *State, v Value, t types.Type) Term {
 	var fs []Term
 	i := 0
 	var walk func(t types.Type)
+	// Go's type system: a reference of one type never designates an object this activation
+	// allocated with an incompatible type
+	distinct := func(ref Term, vt types.Type) {
+		for _, a := range vc.allocs {
+			if !refCompatible(vt, a.typ) {
+				fs = append(fs, sNot(sEq(ref, a.ref)))
+			}
+		}
+	}
 	walk = func(t types.Type) {
 		switch u := t.Underlying().(type) {
 		case *types.Pointer, *types.Map, *types.Chan:
 			fs = append(fs, sOr(sEq(v.C[i], "0"), sSel(al, v.C[i])))
+			distinct(v.C[i], t)
 			i++
 		case *types.Slice:
 			fs = append(fs, sOr(sEq(v.C[i], "0"), sSel(al, v.C[i])))
+			distinct(v.C[i], t)
 			i += 4
 		case *types.Struct:
 			for k := 0; k < u.NumFields(); k++ {
@@ -717,6 +749,7 @@ type runCtx struct {
 	dryHeader *ssa.BasicBlock
 	dryMods   map[string]bool
 	dryAll    bool
+	dryAllGhost bool
 }
 
 func (fr *Frame) execBody(entry *State) (*bodyResult, error) {
